@@ -639,24 +639,34 @@ Linear_Expression_Impl<Row>
           continue;
         }
         if (i.index() > j.index()) {
-          i = row.insert(i, j.index(), *j);
-          (*i) *= c2;
-          ++i;
+          // A dense `y' also visits its zero coefficients: do not store them.
+          if (*j != 0) {
+            i = row.insert(i, j.index(), *j);
+            (*i) *= c2;
+            ++i;
+          }
           ++j;
           continue;
         }
         PPL_ASSERT(i.index() == j.index());
-        (*i) = (*j);
-        (*i) *= c2;
-        ++i;
+        if (*j == 0) {
+          i = row.reset(i);
+        }
+        else {
+          (*i) = (*j);
+          (*i) *= c2;
+          ++i;
+        }
         ++j;
       }
       while (i != i_end && i.index() < end) {
         i = row.reset(i);
       }
       while (j != j_last) {
-        i = row.insert(i, j.index(), *j);
-        (*i) *= c2;
+        if (*j != 0) {
+          i = row.insert(i, j.index(), *j);
+          (*i) *= c2;
+        }
         // No need to increment i here.
         ++j;
       }
